@@ -2024,15 +2024,24 @@ func (tc *typechecker) checkCompositeLiteral(node *ast.CompositeLiteral, typ ref
 	case reflect.Slice, reflect.Array:
 
 		hasIndex := map[int]struct{}{}
+		index := -1
 		for i := range node.KeyValues {
 			kv := &node.KeyValues[i]
-			if kv.Key != nil {
+			if kv.Key == nil {
+				// An element without a key has the index of the previous
+				// element plus one.
+				index++
+				if _, ok := hasIndex[index]; ok {
+					panic(tc.errorf(node, "duplicate index in %s literal: %d", ti.Type.Kind(), index))
+				}
+				hasIndex[index] = struct{}{}
+			} else {
 				keyTi := tc.checkExpr(kv.Key)
 				if keyTi.Constant == nil {
 					panic(tc.errorf(node, "index must be non-negative integer constant"))
 				}
 				if keyTi.IsConstant() {
-					index := int(keyTi.Constant.int64())
+					index = int(keyTi.Constant.int64())
 					if _, ok := hasIndex[index]; ok {
 						panic(tc.errorf(node, "duplicate index in %s literal: %s", ti.Type.Kind(), kv.Key))
 					}
